@@ -56,6 +56,10 @@ func c11Corpus(tier string) []gram.Seed {
 	// leaves them in map order), none of them used by a syntax rule
 	out = append(out, gram.Seed{Name: "case-colliding-names", Text: "kwIf : 'a' ;\nkwif : 'b' ;\nkwIF : 'c' ;\nt1 : 'd' ;\nt01 : 'e' ;\na_b : 'f' ;\na__b : 'g' ;\naB : 'h' ;\nab : 'i' ;\nS : \"x\" S | \"y\" ;\n"},
 		gram.Seed{Name: "case-colliding-lexer-only", Text: "kwIf : 'a' ;\nkwif : 'b' ;\nkwIF : 'c' ;\n!wS : ' ' ;\n!ws : '\\t' ;\n"})
+	// regular definitions that only ignored tokens use, or that nothing uses, each introducing characters no token has
+	// (whatever is derived from them alone - symbol tables, comments in emitted files - has no other order to fall back on)
+	out = append(out, gram.Seed{Name: "regdefs-used-by-ignored-only", Text: "id : 'a'-'z' { 'a'-'z' } ;\n!comment : _line | _block ;\n_line : '/' '/' { . } '\\n' ;\n_block : '/' '*' { 'A'-'Z' | '%' } '*' '/' ;\n_unusedx : '0'-'4' '#' ;\n_unusedy : '5'-'9' '@' ;\n_unusedz : '&' ;\n!ws : ' ' | '\\t' ;\nS : id | S id ;\n"},
+		gram.Seed{Name: "regdefs-unused-lexer-only", Text: "t : 'a' ;\n_p : '1' ;\n_q : '2' ;\n_r : '3' '4' ;\n_s : '5'-'7' ;\n!i : _p _q ;\n"})
 	for i, g := range gram.L6() {
 		out = append(out, gram.Seed{Name: fmt.Sprint("L6-", i), Text: g.Text()})
 	}
